@@ -398,6 +398,16 @@ func (sb *SegmentBase) InterpretVectorIndex(field string, requiresFiltering bool
 				}
 				// vector IDs corresponding to the local doc numbers to be
 				// considered for the search
+				if except != nil && !except.IsEmpty() {
+					// eligible documents that are excluded must not be searched
+					liveEligibleDocIDs := make([]uint64, 0, len(eligibleDocIDs))
+					for _, id := range eligibleDocIDs {
+						if !except.Contains(uint32(id)) {
+							liveEligibleDocIDs = append(liveEligibleDocIDs, id)
+						}
+					}
+					eligibleDocIDs = liveEligibleDocIDs
+				}
 				vectorIDsToInclude := make([]int64, 0, len(eligibleDocIDs))
 				for _, id := range eligibleDocIDs {
 					vecIDs := docVecIDMap[uint32(id)]
